@@ -43,7 +43,59 @@ def _literal(node) -> bool:
         return _literal(node.left) and _literal(node.right)
     if isinstance(node, ast.Call) and isinstance(node.func, (ast.Name, ast.Attribute)) and not node.keywords:
         return all(_literal(a) for a in node.args)
+    if isinstance(node, ast.Lambda):
+        return True             # a function written in place: copied as it stands
     return False
+
+
+def _immutable(node) -> bool:
+    """Constants, tuples of constants, and compiled patterns of constant text: a name bound once to such a value can be read as the value."""
+    if isinstance(node, ast.Constant):
+        return True
+    if isinstance(node, ast.UnaryOp) and isinstance(node.op, ast.USub) and isinstance(node.operand, ast.Constant):
+        return True
+    if isinstance(node, ast.Tuple):
+        return all(_immutable(e) for e in node.elts)
+    if isinstance(node, ast.Call) and ast.unparse(node.func) in ("re.compile",) and node.args and all(isinstance(a, ast.Constant) for a in node.args) \
+            and all(isinstance(k.value, (ast.Constant, ast.Attribute)) for k in node.keywords):
+        return True
+    return False
+
+
+def new_scalars(mod):
+    """{name: value node} for module-level names today's tree does not have, bound once to an immutable value."""
+    known = set(KNOWN_GLOBALS.get(mod.rel, ()))
+    if mod.rel not in KNOWN_GLOBALS:
+        return {}
+    out, count = {}, {}
+    for st in mod.tree.body:
+        if isinstance(st, ast.Assign) and len(st.targets) == 1 and isinstance(st.targets[0], ast.Name):
+            nm = st.targets[0].id
+            count[nm] = count.get(nm, 0) + 1
+            if nm not in known and _immutable(st.value):
+                out[nm] = st.value
+        elif isinstance(st, ast.AnnAssign) and isinstance(st.target, ast.Name) and st.value is not None:
+            nm = st.target.id
+            count[nm] = count.get(nm, 0) + 1
+            if nm not in known and _immutable(st.value):
+                out[nm] = st.value
+    for st in ast.walk(mod.tree):
+        if isinstance(st, ast.Global):
+            for nm in st.names:
+                out.pop(nm, None)
+    return {k: v for k, v in out.items() if count.get(k) == 1}
+
+
+class _Scalars(ast.NodeTransformer):
+    def __init__(self, scalars):
+        self.scalars = scalars
+        self.changed = False
+
+    def visit_Name(self, node):
+        if isinstance(node.ctx, ast.Load) and node.id in self.scalars:
+            self.changed = True
+            return ast.copy_location(copy.deepcopy(self.scalars[node.id]), node)
+        return node
 
 
 def new_tables(mod):
@@ -169,6 +221,48 @@ def _loop_level(stmts, kinds):
     return False
 
 
+def _strip_terminal_breaks(stmts):
+    """The statements without their final `break`s when every path through them ends in one (if/else and try/except included) and no
+    other break of this loop occurs before; None otherwise."""
+    if not stmts or _loop_level(stmts[:-1], (ast.Break,)):
+        return None
+    last = stmts[-1]
+    if isinstance(last, ast.Break):
+        return stmts[:-1]
+    if isinstance(last, ast.If) and last.orelse:
+        b, o = _strip_terminal_breaks(last.body), _strip_terminal_breaks(last.orelse)
+        if b is None or o is None:
+            return None
+        return stmts[:-1] + [ast.copy_location(ast.If(last.test, b or [ast.Pass()], o or [ast.Pass()]), last)]
+    if isinstance(last, ast.Try) and not last.finalbody and not last.orelse and last.handlers:
+        b = _strip_terminal_breaks(last.body)
+        hs = [_strip_terminal_breaks(h.body) for h in last.handlers]
+        if b is None or any(h is None for h in hs):
+            return None
+        new = ast.Try(b or [ast.Pass()], [ast.copy_location(ast.ExceptHandler(h.type, h.name, hb or [ast.Pass()]), h)
+                                         for h, hb in zip(last.handlers, hs)], [], [])
+        return stmts[:-1] + [ast.copy_location(new, last)]
+    return None
+
+
+def _guard_continues(body):
+    """`if c: continue` followed by REST at the top of a loop body  ->  `if not c: REST`."""
+    for i, st in enumerate(body):
+        if isinstance(st, ast.If) and not st.orelse and len(st.body) == 1 and isinstance(st.body[0], ast.Continue):
+            rest = _guard_continues(body[i + 1:])
+            test = st.test
+            if isinstance(test, ast.Compare) and len(test.ops) == 1 and isinstance(test.ops[0], (ast.In, ast.NotIn)):
+                neg = ast.Compare(test.left, [ast.NotIn() if isinstance(test.ops[0], ast.In) else ast.In()], test.comparators)
+            elif isinstance(test, ast.UnaryOp) and isinstance(test.op, ast.Not):
+                neg = test.operand
+            else:
+                neg = ast.UnaryOp(ast.Not(), test)
+            if not rest:
+                return body[:i]
+            return body[:i] + [ast.fix_missing_locations(ast.copy_location(ast.If(ast.copy_location(neg, test), rest, []), st))]
+    return body
+
+
 class Folder(ast.NodeTransformer):
     def __init__(self, tables, rows, cls):
         self.tables, self.rows, self.cls = tables, rows, cls
@@ -209,7 +303,10 @@ class Folder(ast.NodeTransformer):
         has_break = _loop_level(node.body, (ast.Break,))
         has_continue = _loop_level(node.body, (ast.Continue,))
         if has_continue:
-            return node
+            body = _guard_continues(node.body)
+            if _loop_level(body, (ast.Continue,)):
+                return node
+            node.body = body
         if not has_break:
             out = []
             for m in rows:
@@ -218,12 +315,12 @@ class Folder(ast.NodeTransformer):
             self.changed = True
             return [ast.copy_location(st, node) for st in out] or [ast.copy_location(ast.Pass(), node)]
         # search loop: one `if test: ...; break`
-        if len(node.body) == 1 and isinstance(node.body[0], ast.If) and not node.body[0].orelse and node.body[0].body \
-                and isinstance(node.body[0].body[-1], ast.Break) and not _loop_level(node.body[0].body[:-1], (ast.Break,)):
+        stripped = _strip_terminal_breaks(node.body[0].body) if len(node.body) == 1 and isinstance(node.body[0], ast.If) \
+            and not node.body[0].orelse and node.body[0].body else None
+        if stripped is not None:
             chain = list(node.orelse)
             for m in reversed(rows):
-                br = _Sub(m).visit(copy.deepcopy(node.body[0]))
-                br.body = br.body[:-1] or [ast.Pass()]
+                br = _Sub(m).visit(copy.deepcopy(ast.copy_location(ast.If(node.body[0].test, stripped or [ast.Pass()], []), node.body[0])))
                 br.orelse = chain
                 chain = [br]
             self.changed = True
@@ -352,6 +449,18 @@ class Folder(ast.NodeTransformer):
             elts = [self.visit(_Sub({name: e}).visit(copy.deepcopy(node.elt))) for e in node.generators[0].iter.elts]
             self.changed = True
             return ast.copy_location(ast.List(elts, ast.Load()), node)
+        # (f(row) for a, b in TABLE) over a table this tree introduced: one element per row, the row's fields written in
+        if len(node.generators) == 1 and not node.generators[0].ifs and not node.generators[0].is_async:
+            tab = self.table_of(node.generators[0].iter)
+            if tab is not None and isinstance(tab, (ast.Tuple, ast.List)):
+                elts = []
+                for row in tab.elts:
+                    m = {}
+                    if not _bind(node.generators[0].target, row, m):
+                        return node
+                    elts.append(self.visit(_Sub(m).visit(copy.deepcopy(node.elt))))
+                self.changed = True
+                return ast.copy_location(ast.List(elts, ast.Load()), node)
         return node
 
     visit_ListComp = _comp
@@ -446,12 +555,21 @@ def _search_with_tail(stmts, folder):
 def fold_tables(mod, qual, fn):
     """fn with the tables a refactoring introduced read back into it (a copy; fn itself when nothing applies)."""
     tables, rows = new_tables(mod)
-    if not tables and not rows:
+    local = {n.id for n in ast.walk(fn) if isinstance(n, ast.Name) and isinstance(n.ctx, (ast.Store, ast.Del))} | \
+        {a.arg for a in ast.walk(fn) if isinstance(a, ast.arg)}
+    scalars = {k: v for k, v in new_scalars(mod).items() if k not in local}
+    used = {n.id for n in ast.walk(fn) if isinstance(n, ast.Name)}
+    scalars = {k: v for k, v in scalars.items() if k in used}
+    if not tables and not rows and not scalars:
         return fn, False
     cls = qual.rsplit(".", 1)[0] if "." in qual else None
     names = {n.id for n in ast.walk(fn) if isinstance(n, ast.Name)} | {n.attr for n in ast.walk(fn) if isinstance(n, ast.Attribute)}
     if not ({k.split(".")[-1] for k in tables} | set(rows)) & names:
-        return fn, False
+        if not scalars:
+            return fn, False
+        work = _Scalars(scalars).visit(copy.deepcopy(fn))
+        ast.fix_missing_locations(work)
+        return work, True
     work = copy.deepcopy(fn)
     any_change = False
     for _ in range(6):
@@ -464,6 +582,10 @@ def fold_tables(mod, qual, fn):
             work = pr.visit(work)
         elif not f.changed:
             break
+    if scalars:
+        sc = _Scalars(scalars)
+        work = sc.visit(work)
+        any_change = any_change or sc.changed
     if not any_change:
         return fn, False
     work.body = _hoist(work.body)
